@@ -37,12 +37,13 @@ ROUNDS = [[], ["add"], ["add", "nope"], ["add", "add", "echo"], ["nope"]]
 
 
 def strategy(tier):
-    heal = st.fixed_dictionaries({"kind": st.just("heal"), "max_retries": st.integers(0, 4),
+    again = st.sampled_from([False, False, True])
+    heal = st.fixed_dictionaries({"kind": st.just("heal"), "again": again, "max_retries": st.integers(0, 4),
                                   "script": st.lists(st.sampled_from(GEN + ["invalid", "fresh-invalid"]), min_size=1, max_size=6)})
-    swarm = st.fixed_dictionaries({"kind": st.just("swarm"), "max_regen": st.integers(0, 4), "max_steps": st.integers(0, 4),
+    swarm = st.fixed_dictionaries({"kind": st.just("swarm"), "again": again, "max_regen": st.integers(0, 4), "max_steps": st.integers(0, 4),
                                    "threshold": st.sampled_from([0.9, 0.9, 0.5, 0.0, 1.0]),
                                    "workers": st.lists(st.lists(st.sampled_from(WRK + ["fresh", "fresh"]), min_size=1, max_size=5), min_size=1, max_size=4)})
-    tools = st.fixed_dictionaries({"kind": st.just("tools"), "max_iter": st.integers(0, 4), "auto": st.sampled_from([True, True, True, False]),
+    tools = st.fixed_dictionaries({"kind": st.just("tools"), "again": again, "max_iter": st.integers(0, 4), "auto": st.sampled_from([True, True, True, False]),
                                    "rounds": st.lists(st.sampled_from(ROUNDS + [["add"], ["add"]]), min_size=1, max_size=5)})
     return st.integers(0, 2).flatmap(lambda k: [heal, swarm, tools][k])
 
@@ -143,6 +144,14 @@ def _heal(case, out):
 
     loop = ChaperoneLoop(generator=gen, chaperone=DistinctErrors() if len(script) % 2 == 0 else real, schema=schema, max_retries=mr, silent=True)
     out.label("heal")
+    if case.get("again"):
+        # an earlier heal() on the same loop object must not eat into (or extend) the budget of the next one
+        try:
+            loop.heal("warm-up")
+        except RuntimeError:
+            pass
+        del calls[:]
+        DistinctErrors.n = 0
     try:
         res = loop.heal("make a quote")
     except RuntimeError as e:
@@ -253,6 +262,13 @@ def _swarm(case, out):
                            max_steps_per_worker=case["max_steps"], max_regenerations=case["max_regen"], silent=True)
     out.label("swarm")
     mg, ms = case["max_regen"], case["max_steps"]
+    if case.get("again"):
+        try:
+            sw.supervise("warm-up")
+        except RuntimeError:
+            pass
+        del factory_calls[:]
+        steps.clear()
     try:
         res = sw.supervise("task")
     except RuntimeError as e:
@@ -289,7 +305,7 @@ def _swarm(case, out):
         if res.output is not None:
             out.fail("swarm:failure-with-output", "failed swarm released output %r" % (res.output,), d)
             return
-    if res.total_workers_spawned != len(factory_calls):
+    if not case.get("again") and res.total_workers_spawned != len(factory_calls):
         out.fail("swarm:spawn-count-misreported", "total_workers_spawned=%d, factory called %d times" % (res.total_workers_spawned, len(factory_calls)), d)
 
 
@@ -331,6 +347,12 @@ def _tools(case, out):
     nuc = Nucleus(provider=Provider())
     mi = case["max_iter"]
     out.label("tools")
+    if case.get("again"):
+        try:
+            nuc.transcribe_with_tools("warm-up", mito, max_iterations=mi, auto_execute=case["auto"])
+        except Exception:
+            pass
+        counts.update(tools=0, plain=0, executed=0)
     try:
         resp = nuc.transcribe_with_tools("do it", mito, max_iterations=mi, auto_execute=case["auto"])
     except Exception as e:
